@@ -5,6 +5,9 @@ COMMON = [
     'Meta: soundness of the pyvc VC generator itself (mitigated: seeded-mutant self test, smoke obligations, bounded stand-ins on the real code)',
     'Meta: the history induction (constructors establish Inv, every operation preserves Inv and refines the abstract view => all finite histories)',
     'Solvers: z3 5.1.0 and cvc5 1.0.3 answers `unsat` are trusted',
+    'A-callback: a bound method passed as a value (store.get_next / get_prev) is a snapshot function of the heap at that moment, given by its contract; valid because the receiving callee has a proved frame that excludes what that contract reads',
+    'A-abs: units above L0 see the token store through its abstract interface (view, vlen, per-token store/pos); these interface contracts restate the proved L0 contracts and the restatement is not machine-checked (monitored by the store driver)',
+    'Assumed contracts stated in sidecar files for functions that are not targets of the same unit (virtual methods clone/reattach/first_token/last_token/token_store, indexes.range_from_index = CPython range normalisation, copy.deepcopy) are listed per unit below',
 ]
 PER_PROP = {
     'C07': ['callers of the TokenStore API pass tokens of this store / pairwise distinct token lists (preconditions, proved at the L2 call sites under contract only)'],
